@@ -1289,3 +1289,29 @@ def resume_follows_clear(ctx, tag):
               "after the suspended state was taken, every path resumes the chain (or the saved plugin is gone)",
               "runOnceImpl can clear the suspended state and leave (%s) without resuming the chain although the saved plugin is still in the action group: "
               "the suspended action and the rest of its chain never run (and a fresh chain may start from the first action)" % ", ".join(sorted(set(bad))[:3]))
+
+
+def result_sites(fn):
+    """[(return node, node whose guards decide the result, constant)] - the places where a function's result constant is chosen.
+    `return CONST;` and each leaf of `return c ? A : B;` are sites of their own.  The single-exit spelling
+        T ret = DEFAULT; ... ret = OTHER; ... return ret;
+    contributes one site per assignment (guards of the assignment) and one for the default (at the return; it carries no condition of
+    its own - rules that constrain only the non-default results apply unchanged)."""
+    out = []
+    for r, leaf in return_leaves(fn):
+        c = ret_const_of(fn, leaf)
+        if c is not None:
+            out.append((r, leaf, c))
+            continue
+        n = fn.nodes[fn.strip(leaf)]
+        if n["k"] == "ref" and n.get("dk") == "local":
+            init, v = local_init(fn, n["name"], must=False)
+            ws = local_writes(fn, n["name"], must=False)
+            consts = [(w, ret_const_of(fn, write_rhs(fn, w))) for w in ws]
+            c0 = ret_const_of(fn, init) if (v is not None and init is not None and init >= 0) else None
+            if c0 is not None and all(c_ is not None for _, c_ in consts):
+                out.append((r, leaf, c0))
+                out += [(r, w, c_) for w, c_ in consts]
+                continue
+        out.append((r, leaf, None))
+    return out
